@@ -44,7 +44,7 @@ P = 'C09'
 BUDGETS = {'C09': (55, 1200, 40)}
 LEVELS = {'C09': 'exploration'}
 ALLOWED = (ServerError, ProtocolError, SSLVerificationError, NetworkError)
-PROBES = {'C09': ['layer.http', 'layer.web', 'layer.robots', 'layer.ftp', 'layer.crawl', 'long_line', 'raw_random', 'truncated', 'odd_location',
+PROBES = {'C09': ['layer.http', 'layer.web', 'layer.robots', 'layer.ftp', 'layer.crawl', 'crawl_ftp', 'long_line', 'raw_random', 'truncated', 'odd_location',
                   'odd_cookie', 'cookie_flood', 'bad_compression', 'ftp_reply_mutated', 'ftp_listing_mutated', 'hostile_html', 'hostile_css', 'hostile_js',
                   'hostile_sitemap', 'hostile_robots', 'real_file_writer', 'per_url_error_seen', 'healthy_fetched_after_hostile', 'reset', 'stall']}
 INFO = {'C09': {
@@ -303,7 +303,7 @@ def layer_web(tape, r, robots=False):
 FTP_BAD_REPLIES = [b'', b'\r\n', b'abc\r\n', b'99 short\r\n', b'2000 long\r\n', b'227 Entering Passive Mode (1,2,3)\r\n',
                    b'227 (999,999,999,999,999,999)\r\n', b'227 no address\r\n', b'213 notanumber\r\n', b'213 ' + b'9' * 400 + b'\r\n',
                    b'150 ' + b'x' * 70000, b'\xff\xfe\r\n', b'230\r\n', b'230-\r\n230 \r\n', b'220-a\r\n' + b'y' * 70000 + b'\r\n220 b\r\n',
-                   b'227 (10,0,1,1,255,255)\r\n', b'227 (10,0,1,1,0,0)\r\n', b'331 \x00\x01\r\n', b'200 ok\n', b'200 ok\r200 again\r\n',
+                   b'227 (10,0,1,1,255,255)\r\n', b'227 (10,0,1,1,0,0)\r\n', b'227 (10,0,1,1,999,999)\r\n', b'227 (10,9,0,1,256,1)\r\n', b'331 \x00\x01\r\n', b'200 ok\n', b'200 ok\r200 again\r\n',
                    b'550-\r\n', b'1xx bad\r\n', b'-1 neg\r\n', b'226\r\n226 \r\n']
 FTP_BAD_LISTINGS = [b'\xff\xfe\x00garbage\r\n', b'total 0\r\n', b'-rw-r--r--\r\n', b'drwxr-xr-x 2 ftp ftp 4096 Foo 99 9999 x\r\n', b'01-01-18 99:99PM <DIR> x\r\n',
                     b'type=file;size=abc;modify=2018; a\r\ntype=dir;modify=99999999999999; b\r\n', b'=;=;;; \r\n', b' ' * 5000 + b'\r\n',
@@ -477,19 +477,43 @@ def layer_crawl(tape, r, tier):
             else:
                 src.links.append((res, res.url))
         with_robots = tape.chance(1, 3, 'robots')
+        # an FTP origin next to the HTTP one: file URLs (the processor lists the parent directory first), directory URLs,
+        # with the control or data connection failing / answering oddly at a drawn command
+        ftp_urls = []
+        ftp_faults = {}
+        ftp_tree = None
+        if tape.chance(1, 3, 'crawl.ftp'):
+            from harness import ftpcrawl
+            ftp_tree = ftpcrawl.gen_tree(tape)
+            files = [p for p, v in ftp_tree.items() if isinstance(v, bytes)]
+            for _ in range(tape.between(1, 2, 'crawl.ftp.nurls')):
+                k = tape.draw(3, 'crawl.ftp.urlkind')
+                if k == 0 and files:
+                    ftp_urls.append('ftp://ftp.test' + files[tape.draw(len(files), 'crawl.ftp.file')])
+                elif k == 1:
+                    ftp_urls.append('ftp://ftp.test/')
+                else:
+                    ftp_urls.append('ftp://ftp.test/nosuch%d.bin' % tape.draw(3, 'crawl.ftp.nosuch'))
+            for _ in range(tape.between(1, 2, 'crawl.ftp.nfaults')):
+                kind = tape.choice(('rst', 'fin', 'data_rst', 'reply', 'reply', 'stall'), 'crawl.ftp.fault')
+                at = tape.draw(14, 'crawl.ftp.at')
+                ftp_faults[at] = ('reply', FTP_BAD_REPLIES[tape.draw(len(FTP_BAD_REPLIES), 'crawl.ftp.reply')]) if kind == 'reply' else kind
+            r.probes['crawl_ftp'] += 1
         site.finalize()
         opts = {'robots': with_robots, 'recursive': True, 'level': 'inf', 'page_requisites': True, 'tries': 2}
         extra = ['--timeout', '20']
         if tape.chance(1, 2, 'sitemaps'):
             extra.append('--sitemaps')
         dbpath = os.path.join(sandbox, 'db.sqlite')
-        argv = crawl.argv_for(opts, [s.url for s in starts], dbpath, extra=extra)
+        argv = crawl.argv_for(opts, [s.url for s in starts] + ftp_urls, dbpath, extra=extra)
         if tape.chance(1, 2, 'real_files'):
             argv.remove('--delete-after')          # default file writer: documents are saved under the sandbox (cwd)
             r.probes['real_file_writer'] += 1
         concurrency = tape.choice((1, 2, 3), 'concurrency')
 
         def setup(h, server, net):
+            if ftp_tree is not None:
+                ftpcrawl.FtpTreeServer(h, net, ftp_tree, mlsd=tape.chance(1, 2, 'crawl.ftp.mlsd'), faults=ftp_faults)
             for res in hostile:
                 def beh(conn, entry, rs, res=res):
                     conn.send(res.wire)
@@ -516,24 +540,26 @@ def layer_crawl(tape, r, tier):
         out = crawl.run_app(tape, r, site, argv, concurrency, sandbox, setup=setup, budget_vtime=500_000.0)
         rows = crawl.read_rows(dbpath)
         server = out['server']
-        muts = [(x.target, x.mut) for x in hostile]
+        muts = [(x.target, x.mut) for x in hostile] + ([('ftp', ftp_urls, sorted(ftp_faults.items()))] if ftp_tree is not None else [])
         if out.get('hang'):
             r.violate(P, 'hang', 'crawl', out['hang'][:900])
         elif out.get('exception'):
             r.violate(P, 'crawl-ended', 'exception-escaped-app-run', 'hostile resources %r: %s' % (muts, out['exception'][-900:]))
-        elif out['crashed'] or out['exit'] == 1:
+        elif out['crashed'] or out['exit'] == 1 or out.get('fatal'):
+            # (out['fatal'] is filled by Application.run's pipeline-level handler only: whatever its type, the exception
+            # left a pipeline and ended the crawl instead of failing one URL)
             fatal = (out.get('fatal') or [''])[0]
             last = [ln for ln in fatal.strip().split('\n') if ln.strip()][-1:] or ['?']
             where = [ln.strip() for ln in fatal.split('\n') if 'File "' in ln and '/wpull/' in ln][-1:] or ['?']
-            r.violate(P, 'crawl-ended', 'unexpected-crash-path:%s' % last[0].split(':')[0].strip()[:40],
-                      'Application.run took the "unexpectedly crashed" path (exit %r) with hostile resources %r: %s at %s\n%s'
+            r.violate(P, 'crawl-ended', '%s:%s' % ('unexpected-crash-path' if out['crashed'] or out['exit'] == 1 else 'pipeline-ended-by-error', last[0].split(':')[0].strip()[:40]),
+                      'an exception left the download pipeline and ended the crawl (exit %r) with hostile resources %r: %s at %s\n%s'
                       % (out['exit'], muts, last[0][:200], where[0][:200], fatal[-700:]))
         else:
             # every healthy URL must still be fetched (reference crawl over the healthy part; hostile resources are leaves)
             own = [main.host]
             # (only when every hostile resource is a document inside well-framed HTTP: a malformed HTTP message can
             # legitimately desynchronise its keep-alive connection and fail the next URL on it as a per-URL error)
-            if not with_robots and all(x.hostile_kind != 'http' for x in hostile):
+            if not with_robots and ftp_tree is None and all(x.hostile_kind != 'http' for x in hostile):
                 ref_rows, expected = crawl.reference_crawl(site, starts, opts, own)
                 reqs = {canon(e['url']) for e in server.log}
                 for u in expected:
@@ -548,7 +574,7 @@ def layer_crawl(tape, r, tier):
                 if '/hostile/' in x['url'] and x['status'] == 'error':
                     r.probes['per_url_error_seen'] += 1
         r.workload = ('crawl', muts, [s.url for s in starts], concurrency, [(x.kind, x.url, [sp for _, sp in x.links]) for x in site.order], with_robots, extra)
-        r.sample = {'layer': 'crawl', 'hostile': [(t, m) for t, m in muts], 'exit': out['exit'], 'requests': [e['url'] for e in server.log][:30],
+        r.sample = {'layer': 'crawl', 'hostile': [list(x) for x in muts], 'exit': out['exit'], 'requests': [e['url'] for e in server.log][:30],
                     'rows': [(x['url'], x['status'], x['try_count']) for x in rows][:20]}
         r.nontrivial = any(('/hostile/' in e['url']) for e in server.log)
         for e in server.log:
